@@ -324,6 +324,18 @@ class CheckerHistoryStream(Stream):
     def emit(self, c):
         return e_list([e_fcase(x) for x in c['calls']], 'fcase')
 
+    # a sequence of answers: the calls whose segment text the table does not cover (UNMODELLED) or that Python's re
+    # rejects (SKIP) are left out of the comparison, the others are compared position by position
+    def same(self, io, mo):
+        a, b = io.split(','), mo.split(',')
+        return len(a) == len(b) and all(x == y or 'UNMODELLED' in y or x == 'SKIP' for x, y in zip(a, b))
+
+    def unmodelled(self, io, mo):
+        if mo is None:
+            return False
+        a, b = io.split(','), mo.split(',')
+        return len(a) == len(b) and all('UNMODELLED' in y or x == 'SKIP' for x, y in zip(a, b))
+
     def _run(self, c, fresh=False):
         ck = specs.mk_checker('CRegex', c['cache'])
         out = []
